@@ -71,6 +71,8 @@ pub fn nonce_kind() -> impl Strategy<Value = NonceKind> {
 
 #[derive(Clone, Debug, Serialize, Deserialize)]
 pub struct LCase {
+    #[serde(default)]
+    pub suffix: bool,
     pub key: KeySeed,
     pub msg: BytesSpec,
     pub footer: BytesSpec,
@@ -84,18 +86,26 @@ fn lstrat<B: Backend>(tier: Tier) -> impl Strategy<Value = LCase> {
         3 => (33u32..=400, 0u8..4, any::<u32>()).prop_map(|(len, fill, seed)| BytesSpec { len, fill, seed }),
         1 => gens::payload(tier),
     ];
-    (gens::key_seed(), msg, gens::footer(), gens::assertion(B::VER.has_assertion()), nonce_kind())
-        .prop_map(|(key, msg, footer, assertion, nonce)| LCase { key, msg, footer, assertion, nonce })
+    (gens::key_seed(), msg, gens::footer(), gens::assertion(B::VER.has_assertion()), nonce_kind(), prop::bool::weighted(0.25))
+        .prop_map(|(key, msg, footer, assertion, nonce, suffix)| LCase { suffix, key, msg, footer, assertion, nonce })
 }
 
-fn decrypt_on<T: Backend>(token: &str, key_raw: &[u8; 32], i: &[u8]) -> Result<(Vec<u8>, Vec<u8>), String> {
+fn decrypt_on<T: Backend, M: BytesPayload>(token: &str, key_raw: &[u8; 32], i: &[u8]) -> Result<(Vec<u8>, Vec<u8>), String> {
     let k = key_from_bytes::<V<T>, Local>(key_raw).map_err(|e| format!("{e}"))?;
-    let t: SealedToken<V<T>, Local, Raw, Vec<u8>> = token.parse().map_err(|e| format!("parse: {e}"))?;
+    let t: SealedToken<V<T>, Local, M, Vec<u8>> = token.parse().map_err(|e| format!("parse: {e}"))?;
     let u = t.unseal(&k, i, &NoValidation::dangerous_no_validation()).map_err(|e| format!("{e}"))?;
-    Ok((u.claims.0, u.footer))
+    Ok((u.claims.bytes().to_vec(), u.footer))
 }
 
 fn local_case<B: Backend>(c: &LCase, acc: &mut Acc) -> R {
+    if c.suffix {
+        model::with_suffix(<RawS as paseto_core::encodings::Payload>::SUFFIX, || local_case_m::<B, RawS>(c, acc))
+    } else {
+        local_case_m::<B, Raw>(c, acc)
+    }
+}
+
+fn local_case_m<B: Backend, M: BytesPayload>(c: &LCase, acc: &mut Acc) -> R {
     let name = B::NAME;
     let ver = B::VER;
     let kraw = local_key_bytes(&c.key);
@@ -104,15 +114,15 @@ fn local_case<B: Backend>(c: &LCase, acc: &mut Acc) -> R {
 
     // (1) impl -> spec: the token for this draw is the one the model prescribes
     let draw = c.nonce.bytes(ver.local_draw_len());
-    let lib = UnsealedToken::<V<B>, Local, Raw>::new(Raw(m.clone()))
+    let lib = UnsealedToken::<V<B>, Local, M>::new(M::from_bytes(m.clone()))
         .with_footer(f.clone())
         .dangerous_seal_with_nonce(&key, &i, draw.clone())
         .map_err(|e| Fail::new(format!("C03/{name}/local/seal-failed"), format!("{e}")))?
         .to_string();
     let spec = model::local_encrypt(ver, &kraw, &draw, &m, &f, &i).map_err(|e| Fail::new("HARNESS/model-local", e))?;
     if lib != spec {
-        let (lp, _) = model::disassemble(&format!("{}.local.", ver.v()), &lib).unwrap_or_default();
-        let (sp, _) = model::disassemble(&format!("{}.local.", ver.v()), &spec).unwrap_or_default();
+        let (lp, _) = model::disassemble(&model::header(ver, "local"), &lib).unwrap_or_default();
+        let (sp, _) = model::disassemble(&model::header(ver, "local"), &spec).unwrap_or_default();
         let first = lp.iter().zip(sp.iter()).position(|(a, b)| a != b).unwrap_or(lp.len().min(sp.len()));
         let nl = ver.local_nonce_len();
         let region = if lp.len() != sp.len() {
@@ -136,9 +146,9 @@ fn local_case<B: Backend>(c: &LCase, acc: &mut Acc) -> R {
     // For v1 the nonce is embedded, so this is where its counter block n[16..32] can be aimed at wrap.
     let n = c.nonce.bytes(ver.local_nonce_len());
     let payload = model::local_encrypt_with_nonce(ver, &kraw, &n, &m, &f, &i).map_err(|e| Fail::new("HARNESS/model-local2", e))?;
-    let tok = model::assemble(&format!("{}.local.", ver.v()), &payload, &f);
+    let tok = model::assemble(&model::header(ver, "local"), &payload, &f);
     let embedded_wrap = c.nonce.is_wrap() && matches!(ver, Ver::V1) && m.len() > 16;
-    match decrypt_on::<B>(&tok, &kraw, &i) {
+    match decrypt_on::<B, M>(&tok, &kraw, &i) {
         Ok((mm, ff)) => {
             if mm != m || ff != f {
                 let first = mm.iter().zip(m.iter()).position(|(a, b)| a != b).unwrap_or(0);
@@ -155,11 +165,11 @@ fn local_case<B: Backend>(c: &LCase, acc: &mut Acc) -> R {
 
     // (3) sibling: accepts this back end's encrypt() output (library randomness) and yields the same claims
     let mut sib_err: Option<Fail> = None;
-    let own = UnsealedToken::<V<B>, Local, Raw>::new(Raw(m.clone())).with_footer(f.clone()).seal(&key, &i).map(|t| t.to_string());
+    let own = UnsealedToken::<V<B>, Local, M>::new(M::from_bytes(m.clone())).with_footer(f.clone()).seal(&key, &i).map(|t| t.to_string());
     if let Ok(own) = own {
         crate::for_backends!(T => {
             if T::VER == ver && T::NAME != name && sib_err.is_none() {
-                match decrypt_on::<T>(&own, &kraw, &i) {
+                match decrypt_on::<T, M>(&own, &kraw, &i) {
                     Ok((mm, ff)) if mm == m && ff == f => acc.class("sibling:accepts"),
                     Ok(_) => sib_err = Some(Fail::new(format!("C03/{name}/local/sibling/{}/claims-differ", T::NAME), "sibling decrypts this back end's token to different claims")),
                     Err(e) => sib_err = Some(Fail::new(format!("C03/{name}/local/sibling/{}/rejected", T::NAME), format!("sibling rejects this back end's token: {e}"))),
@@ -181,6 +191,7 @@ fn local_case<B: Backend>(c: &LCase, acc: &mut Acc) -> R {
         acc.class("v1:embedded-counter-wrap-inside-message");
     }
     acc.class(if m.len() >= 2 * block { "msg:>=2-blocks" } else { "msg:<2-blocks" });
+    acc.class(if M::SUFFIX.is_empty() { "encoding-suffix:none" } else { "encoding-suffix:non-empty" });
     acc.sample(|| json!({"backend": name, "msg_len": m.len(), "nonce_kind": format!("{:?}", c.nonce), "footer_len": f.len(), "assertion_len": i.len(), "token_prefix": lib.chars().take(56).collect::<String>()}));
     Ok(())
 }
@@ -240,7 +251,7 @@ fn forced_iv_case<B: Backend>(c: &IvCase, acc: &mut Acc) -> R {
         hex::encode(iv),
         m.len()
     );
-    match decrypt_on::<B>(&spec, &kraw, &i) {
+    match decrypt_on::<B, Raw>(&spec, &kraw, &i) {
         Ok((mm, ff)) if mm == m && ff == f => {}
         Ok(_) => return Err(Fail::new(format!("C03/{name}/local-forced-iv/spec-vs-impl/claims-differ"), "claims differ")),
         Err(e) => return Err(Fail::new(format!("C03/{name}/local-forced-iv/spec-vs-impl/rejected"), e)),
@@ -261,6 +272,11 @@ fn forced_iv_case<B: Backend>(c: &IvCase, acc: &mut Acc) -> R {
 
 #[derive(Clone, Debug, Serialize, Deserialize)]
 pub struct PCase {
+    #[serde(default)]
+    pub suffix: bool,
+    /// sign with: 0 the key as parsed, 1 a clone of it, 2 a clone of a clone
+    #[serde(default)]
+    pub key_variant: u8,
     pub key: KeySeed,
     pub msg: BytesSpec,
     pub footer: BytesSpec,
@@ -270,15 +286,15 @@ pub struct PCase {
 }
 
 fn pstrat<B: Backend>(_tier: Tier) -> impl Strategy<Value = PCase> {
-    (gens::key_seed(), gens::small_payload(), gens::footer(), gens::assertion(B::VER.has_assertion()), 0u8..3)
-        .prop_map(|(key, msg, footer, assertion, signer)| PCase { key, msg, footer, assertion, signer })
+    (gens::key_seed(), gens::small_payload(), gens::footer(), gens::assertion(B::VER.has_assertion()), 0u8..3, prop::bool::weighted(0.25), 0u8..3)
+        .prop_map(|(key, msg, footer, assertion, signer, suffix, key_variant)| PCase { suffix, key_variant, key, msg, footer, assertion, signer })
 }
 
-fn verify_on<T: Backend>(token: &str, pk_raw: &[u8], i: &[u8]) -> Result<(Vec<u8>, Vec<u8>), String> {
+fn verify_on<T: Backend, M: BytesPayload>(token: &str, pk_raw: &[u8], i: &[u8]) -> Result<(Vec<u8>, Vec<u8>), String> {
     let k = key_from_bytes::<V<T>, Public>(pk_raw).map_err(|e| format!("key: {e}"))?;
-    let t: SealedToken<V<T>, Public, Raw, Vec<u8>> = token.parse().map_err(|e| format!("parse: {e}"))?;
+    let t: SealedToken<V<T>, Public, M, Vec<u8>> = token.parse().map_err(|e| format!("parse: {e}"))?;
     let u = t.unseal(&k, i, &NoValidation::dangerous_no_validation()).map_err(|e| format!("{e}"))?;
-    Ok((u.claims.0, u.footer))
+    Ok((u.claims.bytes().to_vec(), u.footer))
 }
 
 fn independent_verify(ver: Ver, pk_raw: &[u8], pre: &[u8], sig: &[u8], backend: &str) -> Result<(), String> {
@@ -306,16 +322,30 @@ fn independent_verify(ver: Ver, pk_raw: &[u8], pre: &[u8], sig: &[u8], backend: 
 }
 
 fn public_case<B: Backend>(c: &PCase, acc: &mut Acc) -> R {
+    if c.suffix {
+        model::with_suffix(<RawS as paseto_core::encodings::Payload>::SUFFIX, || public_case_m::<B, RawS>(c, acc))
+    } else {
+        public_case_m::<B, Raw>(c, acc)
+    }
+}
+
+fn public_case_m<B: Backend, M: BytesPayload>(c: &PCase, acc: &mut Acc) -> R {
     let name = B::NAME;
     let ver = B::VER;
     let sk_raw = secret_bytes(ver, &c.key);
     let pk_raw = public_bytes(ver, &sk_raw);
-    let sk = secret_key::<B>(&c.key);
+    let sk0 = secret_key::<B>(&c.key);
+    // a copy of a key is the same key: tokens signed by a clone must be the specification's too
+    let sk = match c.key_variant % 3 {
+        0 => sk0,
+        1 => sk0.clone(),
+        _ => sk0.clone().clone(),
+    };
     let (m, f, i) = (c.msg.bytes(), c.footer.bytes(), c.assertion.bytes());
     let pre = model::public_preauth(ver, &pk_raw, &m, &f, &i).map_err(|e| Fail::new("HARNESS/model-preauth", e))?;
 
     // (1) impl -> spec
-    let lib = UnsealedToken::<V<B>, Public, Raw>::new(Raw(m.clone()))
+    let lib = UnsealedToken::<V<B>, Public, M>::new(M::from_bytes(m.clone()))
         .with_footer(f.clone())
         .seal(&sk, &i)
         .map_err(|e| Fail::new(format!("C03/{name}/public/sign-failed"), format!("{e}")))?
@@ -344,7 +374,7 @@ fn public_case<B: Backend>(c: &PCase, acc: &mut Acc) -> R {
         Ver::V1 => (model::rsa_pss_sign_awslc(&model::pem_to_der(&sk_raw), &pre).map_err(|e| Fail::new("HARNESS/sign", e))?, "aws-lc-pss"),
     };
     let spec_tok = model::public_assemble(ver, &m, &sig, &f);
-    match verify_on::<B>(&spec_tok, &pk_raw, &i) {
+    match verify_on::<B, M>(&spec_tok, &pk_raw, &i) {
         Ok((mm, ff)) if mm == m && ff == f => {}
         Ok(_) => return Err(Fail::new(format!("C03/{name}/public/spec-vs-impl/claims-differ"), "claims differ")),
         Err(e) => {
@@ -359,7 +389,7 @@ fn public_case<B: Backend>(c: &PCase, acc: &mut Acc) -> R {
     let mut sib_err: Option<Fail> = None;
     crate::for_backends!(T => {
         if T::VER == ver && T::NAME != name && sib_err.is_none() {
-            match verify_on::<T>(&lib, &pk_raw, &i) {
+            match verify_on::<T, M>(&lib, &pk_raw, &i) {
                 Ok((mm, ff)) if mm == m && ff == f => acc.class("sibling:accepts"),
                 Ok(_) => sib_err = Some(Fail::new(format!("C03/{name}/public/sibling/{}/claims-differ", T::NAME), "claims differ")),
                 Err(e) => sib_err = Some(Fail::new(format!("C03/{name}/public/sibling/{}/rejected", T::NAME), format!("sibling rejects this back end's token: {e}"))),
@@ -374,6 +404,7 @@ fn public_case<B: Backend>(c: &PCase, acc: &mut Acc) -> R {
         acc.nt(hash_of(&(&c.key, &c.msg, &c.footer, &c.assertion, c.signer)));
     }
     acc.class(&format!("signer:{signer_name}"));
+    acc.class(["signing-key:parsed", "signing-key:clone", "signing-key:clone-of-clone"][(c.key_variant % 3) as usize]);
     acc.sample(|| json!({"backend": name, "msg_len": m.len(), "footer_len": f.len(), "assertion_len": i.len(), "independent_signer": signer_name}));
     Ok(())
 }
